@@ -181,7 +181,8 @@ func (s *CountMinSketch) spec_Estimate(h uint64) (m uint) {
 }
 
 func (s *CountMinSketch) spec_EnsureCapacity(size uint) {
-	requires("size", size <= 1<<40)
+	// A-MEM: fewer than 2^40 entries are ever tracked (trusted; the real code would run out of memory first)
+	assumes("A-MEM", size <= 1<<40)
 	requires("wf_or_empty", len(s.Table) == 0 || (sp_wfSketch(s) && sp_J(s)))
 	if old(len(s.Table)) < int(size) {
 		// a grown table starts a new counting period
